@@ -10,7 +10,7 @@ def _three_decimals(sh):
     return all((fr(k) * 1000).denominator == 1 for U in sh["kv"] for k in U)
 
 
-def check_case(ctx, cs, precision=None):
+def check_case(ctx, cs, precision=None, binsearch=False):
     from geomdl import operations
     from geomdl.exceptions import GeomdlException
     ctx.full = cs
@@ -28,6 +28,13 @@ def check_case(ctx, cs, precision=None):
         ok, obj = _try(ctx, "build", tg, small, lambda: build(sh, precision=precision))
     if not ok:
         return
+    kw = {}
+    if binsearch:
+        # the documented keyword option: the span of the split parameter is found by bisection instead of the linear scan
+        from geomdl import helpers
+        kw = {"find_span_func": helpers.find_span_binsearch}
+        tg = tg + ["find_span_func=binsearch"]
+        small = dict(small, find_span_func="binsearch")
     before = copy.deepcopy(project(obj))
     op = o["op"]
     if op in ("split", "split_end"):
@@ -36,10 +43,10 @@ def check_case(ctx, cs, precision=None):
         fn = operations.split_curve if pd == 1 else (operations.split_surface_u if d == 1 else operations.split_surface_v)
         site = "operations." + fn.__name__
         small = dict(small, d=d, u=o["u"])
-        ctx.count((op, shape_key(sh), d, tuple(o["u"]), precision), sample={"op": op, **small})
+        ctx.count((op, shape_key(sh), d, tuple(o["u"]), precision, binsearch), sample={"op": op, **small})
         if op == "split_end":
             try:
-                fn(obj, u)
+                fn(obj, u, **kw)
                 ctx.violate(site, tg + ["domain_end_not_rejected"], small, {"expected": "GeomdlException"})
             except GeomdlException:
                 pass
@@ -48,7 +55,7 @@ def check_case(ctx, cs, precision=None):
         else:
             mult = sum(1 for k in sh["kv"][d - 1] if k == o["u"])
             tg2 = tg + ["dir=" + "uv"[d - 1], "mult=%d" % mult]
-            ok, pcs = _try(ctx, site, tg2, small, lambda: fn(obj, u))
+            ok, pcs = _try(ctx, site, tg2, small, lambda: fn(obj, u, **kw))
             if ok:
                 if len(pcs) != 2:
                     ctx.violate(site, tg2 + ["count"], small, {"expected": 2, "got": len(pcs)})
@@ -63,8 +70,8 @@ def check_case(ctx, cs, precision=None):
         site = "operations.decompose_curve" if pd == 1 else "operations.decompose_surface"
         small = dict(small, dir=dr)
         tg2 = tg + ["dir=" + dr]
-        ctx.count((op, shape_key(sh), dr, precision), sample={"op": op, **small, "pieces": len(o["pieces"])})
-        ok, pcs = _try(ctx, site, tg2, small, lambda: operations.decompose_curve(obj) if pd == 1 else operations.decompose_surface(obj, decompose_dir=dr))
+        ctx.count((op, shape_key(sh), dr, precision, binsearch), sample={"op": op, **small, "pieces": len(o["pieces"])})
+        ok, pcs = _try(ctx, site, tg2, small, lambda: operations.decompose_curve(obj, **kw) if pd == 1 else operations.decompose_surface(obj, decompose_dir=dr, **kw))
         if ok:
             if len(pcs) != len(o["pieces"]):
                 ctx.violate(site, tg2 + ["count"], small, {"expected": len(o["pieces"]), "got": len(pcs)})
@@ -97,7 +104,10 @@ def run(ctx):
         if cs["out"]["op"] != "split_end" and _three_decimals(cs["sh"]):
             ops["precision=3"] = ops.get("precision=3", 0) + 1
             check_case(ctx, cs, precision=3)
-    if len(ops) < 7:
+        if cs["out"]["op"] != "split_end":
+            ops["binsearch"] = ops.get("binsearch", 0) + 1
+            check_case(ctx, cs, binsearch=True)
+    if len(ops) < 8:
         raise core.MachineryError("vacuous model: %s" % ops)
     ctx.traces = len(res.cases)
     ctx.extra["transitions_by_action"] = ops
@@ -106,4 +116,4 @@ def run(ctx):
 
 
 def replay(ctx, v):
-    check_case(ctx, v["full"], precision=v.get("case", {}).get("precision"))
+    check_case(ctx, v["full"], precision=v.get("case", {}).get("precision"), binsearch=v.get("case", {}).get("find_span_func") == "binsearch")
